@@ -12,607 +12,749 @@ Definition show_fres (r : fres) : string :=
   end.
 Definition check (rs : list rune) : string := digest (show_fres (format_res rs)).
 Definition full (rs : list rune) : string := show_fres (format_res rs).
-Eval vm_compute in ("<<<M1427>>>" ++ check (runes_of_ascii "root packet u128 {
-    @lengthOf(A)
-    pack @calculatedFrom(""`tick`""),
-    repeat char[] As `crlf
-    line`,
-    @tag(4294967296)
-    @rightPad('\x00'	)
-    @calculatedFrom(""a\\"")
-    tag {
-        repeat string o,
-        char[] calculatedFrom `u8 x,`,
-        u {
-            u64 body `say ""hi""`,
-            repeat f32 int,
-            repeat rootA {
-                repeat string i64_ `it's`,
-                As @calculatedFrom("""") `" ++ [233]%N ++ runes_of_ascii "`,
-                tag `" ++ [233]%N ++ runes_of_ascii "`,
-            },
-            zchar[65535] trueish,
-        },
-    },
-    @lengthOf(Logon)
-    i8 Packet,
-    @tag(3)
-    @lengthOf(chars)
-    @tag(10)
-    u8 Foo,
-    // " ++ [128512]%N ++ runes_of_ascii " emoji
-    i64_ _x `crlf
-    line`,
-    u32 A,
-    match a1 as i8i8 {
-        [""1"", 4294967296] : a1,
-        """" : a1,
-        007 : a1,
-        [""CRC32""] : Header,
-    },
-    int64 As,
+Eval vm_compute in ("<<<M1889>>>" ++ check (runes_of_ascii "// c
+  	packet uint8x{
+
+    @tag( 65535	)
+
+x_y_z,char[]
+
+a1  @calculatedFrom(
+
+""`tick`""
+) , @tag( 1) @tag(  1 )@tag( 4294967296
+	)  repeat string rootA  `tab	here` ,repeat i32
+
+tag, }packet
+pack 
+{
+    @calculatedFrom(
+    ""// no comment"")
+
+@lengthOf( uint8x
+    )	string
+zchar @calculatedFrom(
+""`tick`""
+    ) 
+,
+	}root  packet
+
+tag
+	{ 	 // trailing space 
+@tag(
+    42/// triple
+		)
+
+    @lengthOf(As )  @leftPad  ( '0'
+    ) match u128
+
+    as
+
+float { [
+
+    00] :  charz  ,
+
+}
+    ,
+} packet	chars
+
+    {  @leftPad (  '\x00'
+
+)char[ 10
+
+    ]
+
+    len
+	@calculatedFrom( ""a	b"") 
+,@tag(00)@tag( 
+10
+
+)uint64  matchKey
+    , x_y_z {	repeat 	 // packet A { u8 x, }
+  string
+
+rootA`doc`  ,
+
+    tag// packet A { u8 x, }
+  ,
+repeat char  
+      //x
+	//	t
+	MetaDataX
+
+,
+int64
+    asx
+	// 50% %s
+  	,} , 	 // trailing space 
+    	i16
+	stringy,
+	match 
+x_y_z  as
+BodyLength//x
+		{ [  ""\" ++ [233]%N ++ runes_of_ascii """ ,
+""" ++ [28040; 24687]%N ++ runes_of_ascii """,
+	7
+
+,
+    0	,
+	7 ,  4294967296
+	]
+    :
+
+    A
+
+, // " ++ [128512]%N ++ runes_of_ascii " emoji
+},
+
+    @calculatedFrom(
+    ""\n"" )
+    @leftPad 
+	    //
+
+  ( 
+)
+	f64 
+msg_type
+
+    ,repeat
+
+    Logon
+	`say ""hi""`
+    , @tag(
+007)
+match
+crc
+as
+
+    msg_type  {
+	[ ""a\\"" 
+,
+
+0123456789 ,
+""`tick`"" ,
+	""" ++ [233]%N ++ runes_of_ascii "t" ++ [233]%N ++ runes_of_ascii """
+
+,
+    //
+// trailing space 
+  	""{,}"" , 	 // a // b
+	255  ,
+	0123456789 
+      //
+  ]: // packet A { u8 x, }
+	  Header
+	0123456789
+	:
+len // c
+
+,
+65535 : BodyLength	, ""CRC32""
+    :
+
+    string_	// " ++ [128512]%N ++ runes_of_ascii " emoji
+,
+    4294967296
+
+    :  len
+,
+""" ++ [28040; 24687]%N ++ runes_of_ascii """:
+trueish
 }
 
-root packet chars {
-    x_y_z {
-        // a // b
-        u32 u128,
-        float64 metadata,
-        trueish @calculatedFrom(""it's"") `u8 x,`,
+    ,repeat
+
+string u
+	,
+	lengthOf Z9_  `{ , }`
+,
+	} // 50% %s
+  	packet 
+trueish
+
+    {
+
+f32
+Logon	@calculatedFrom(
+
+""1"" )
+    ,  i64
+
+matchKey@calculatedFrom( ""x y""// a // b
+  )	//x
+    `" ++ [28040; 24687; 31867; 22411]%N ++ runes_of_ascii "` 
+,i8i8`it's` , msg_type,	uint8
+	lengthOf,
+	int
+
+trueish , char[ 0123456789 ] uint8x ,
+	i8
+
+    int@lengthOf( msg_type	)
+
+`say ""hi""` , @rightPad 
+(
+) repeat f64 Z9_,
+metadata{  falsey@calculatedFrom(
+	""abc""
+	)
+    ,
+
+} 	 //
+		,	}")).
+Eval vm_compute in ("<<<M7>>>" ++ check (runes_of_ascii "options// @lengthOf(
+{
+    rootA=	""x y"";
+trueish// a // b
+=
+    0 Header =""1"" }
+    root packet packetx{ u32 uint8x ,
+u A ,// " ++ [128512]%N ++ runes_of_ascii " emoji
+i16 body @lengthOf(A )
+,
+@lengthOf(
+    u8x
+    // 50% %s
+    )
+    u8x @calculatedFrom( /// triple
+""abc"" ) ,  @tag(
+    42
+)match	float as a1	{ [ """" ] : pack ,""""
+: leftPad ,7
+:f32a , 3
+:
+    i8i8
+, 255
+: string_	, } // c
+, metadata``	, /// triple
+uint8 rootA// packet A { u8 x, }
+, }// trailing space 
+packet zchar { // c
+@calculatedFrom( ""it's"") uint64
+//	t
+// packet A { u8 x, }
+int
+, char
+int ,i16 float // @lengthOf(
+, asx	, // c
+char[	7] Packet
+    @lengthOf( body)
+    `" ++ [28040; 24687; 31867; 22411]%N ++ runes_of_ascii "`
+, } packet stringy
+// " ++ [128512]%N ++ runes_of_ascii " emoji
+//	t
+{
+//x
+//	t
+@calculatedFrom(""abc"" ) zchar[
+65535 /// triple
+] Packet ,// @lengthOf(
+@tag(42 // " ++ [27880; 37322]%N ++ runes_of_ascii "
+)
+    // `tick` ""quote"" 'q'
+    @leftPad()
+    char[]
+falsey ,i8i8
+x `" ++ [28040; 24687; 31867; 22411]%N ++ runes_of_ascii "`,@tag(
+255 ) u128
+    {
+    f32 //
+uint8x
+`u8 x,`, o @calculatedFrom( ""a\""b"")
+// 50% %s
+//x
+, char[] charz `
+` , }, @calculatedFrom(
+""1"" )
+    repeat i8i8 { zchar[0 ] int , } , @tag( 007 )repeat i64
+Logon
+`
+` , repeat
+    char[ 0 ] matchKey `crlf
+line` ,@calculatedFrom(  ""a\\"") @tag(
+    42
+)	@leftPad // 50% %s
+(
+'0'  ) match o as
+x_y_z
+    // " ++ [27880; 37322]%N ++ runes_of_ascii "
+    { [ // `tick` ""quote"" 'q'
+""" ++ [128512]%N ++ runes_of_ascii """ , ""x y"" , 0123456789 , ""CRC32""// c
+,""it's"",
+    //
+    007
+,
+3 ,
+007 // " ++ [27880; 37322]%N ++ runes_of_ascii "
+]
+:Packet [
+    255 ,  ""x y""	]: x_y_z ,} ,}
+//	t
+")).
+Eval vm_compute in ("<<<M380>>>" ++ check (runes_of_ascii "options {
+	StringPrefixLenType = u16;
+	ArrayPrefixLenType = u16;
+}
+
+packet SampleBinary {
+	uint16 MsgType `" ++ [28040; 24687; 31867; 22411]%N ++ runes_of_ascii "`,
+	u16 BodyLenght @lengthOf(Body) `" ++ [28040; 24687; 20307; 38271; 24230]%N ++ runes_of_ascii "`,
+	match MsgType as Body {
+		1 : Logon,
+		2 : Logout,
+		3 : Heartbeat,
+		4 : RiskControlRequest,
+		5 : RiskControlResponse,
+	},
+		@calculatedFrom(""CRC32"")
+	u32 Ckecksum `" ++ [26657; 39564; 21644]%N ++ runes_of_ascii "`,
+}
+
+packet Logon {
+	 @leftPad('0')
+	char[10] UserName `" ++ [29992; 25143; 21517]%N ++ runes_of_ascii "`,
+	string Password `" ++ [23494; 30721]%N ++ runes_of_ascii "`,
+	uint64 ClientId `" ++ [23458; 25143; 31471]%N ++ runes_of_ascii "ID`,
+	u16 HeartbeatInterval `" ++ [24515; 36339; 38388; 38548]%N ++ runes_of_ascii "`,
+}
+
+packet Logout {
+	  @rightPad('0')
+	char[10] UserName `" ++ [29992; 25143; 21517]%N ++ runes_of_ascii "`,
+	uint64 ClientId `" ++ [23458; 25143; 31471]%N ++ runes_of_ascii "ID`,
+}
+
+packet Heartbeat {
+}
+
+packet RiskControlRequest {
+	string UniqueOrderId `" ++ [21807; 19968; 35746; 21333; 21495]%N ++ runes_of_ascii "`,
+	char[16] ClOrdID `" ++ [23458; 25143; 35746; 21333; 21495]%N ++ runes_of_ascii "`,
+	char[3] MarketID `" ++ [24066; 22330]%N ++ runes_of_ascii "id`,
+	char[12] SecurityID `" ++ [35777; 21048; 20195; 30721]%N ++ runes_of_ascii "`,
+	char Side `" ++ [20080; 21334; 26041; 21521]%N ++ runes_of_ascii "`,
+	char OrderType `" ++ [35746; 21333; 31867; 22411]%N ++ runes_of_ascii "`,
+	u64 Price `" ++ [20215; 26684]%N ++ runes_of_ascii "`,
+	u32 Qty `" ++ [25968; 37327]%N ++ runes_of_ascii "`,
+	repeat string ExtraInfo `" ++ [38468; 21152; 20449; 24687]%N ++ runes_of_ascii "`,
+	repeat SubOrder {
+			char[16] ClOrdID `" ++ [23376; 35746; 21333; 21495]%N ++ runes_of_ascii "`,
+			u64 Price `" ++ [23376; 35746; 21333; 20215; 26684]%N ++ runes_of_ascii "`,
+			u32 Qty `" ++ [23376; 35746; 21333; 25968; 37327]%N ++ runes_of_ascii "`,
+		},
+}
+
+packet RiskControlResponse {
+	string UniqueOrderId `" ++ [21807; 19968; 35746; 21333; 21495]%N ++ runes_of_ascii "`,
+	i32 Status `" ++ [29366; 24577]%N ++ runes_of_ascii "`,
+	string Msg `" ++ [32467; 26524; 20449; 24687]%N ++ runes_of_ascii "`,
+	repeat Detail,
+}
+
+packet Detail {
+	string RuleName `" ++ [35268; 21017; 21517; 31216]%N ++ runes_of_ascii "`,
+	u16 Code `" ++ [21407; 22240; 20195; 30721]%N ++ runes_of_ascii "`,
+}")).
+Eval vm_compute in ("<<<M1358>>>" ++ check (runes_of_ascii "  options{
+LittleEndian
+
+    =
+false 
+;
+StringPrefixLenType
+=
+u16
+
+    ;
+	ArrayPrefixLenType=u8
+
+    ;
+FixedStringPadChar
+=	'0'
+
+    ;
+} packet
+    Leg 
+{
+zchar[1
+] Ref
+	,
+
+repeat
+string
+    count, repeat InMsgkind21
+
+{
+
+repeat
+
+char[ 2
+	]
+price
+    , uint64 
+sym
+    ,
+    zchar[  9
+    ]
+msgKind 
+, 
+}
+
+,
+
+zchar[ 5 ] Note,  }
+	packet
+	Ack {	u16 seqNo
+    ,  repeat
+
+    char[1
+    ]
+	Acct 
+,
+
+    @leftPad	( ' '
+    ) 
+char[
+
+    4] msgKind ,repeat InTag747{Leg	, }
+, 
+repeat	string Tail
+    , Leg	,}
+	packet Trade
+
+{  u64 
+clOrdID
+
+, repeat
+
+InLastpx24
+{
+char[
+
+    10 ]	Note
+	,
+char[
+3
+]
+    Qty , repeat  char[
+    2 ]  Side2
+	,
+	Ack
+
+,
+repeat InX47  {
+    Ack,
+	}
+    ,
+
+    }
+	,
+} root
+
+    packet Heartbeat  {
+
+repeat
+    u64 
+Acct  ,	string	lastPx ,
+u8
+Side2
+
+,match
+Side2
+    as  Body {2
+    : 
+Trade
+
+    , 
+157 : Ack
+    ,46
+
+    : 
+Leg,
+}  ,
+
+    u32
+
+sym 
+@calculatedFrom(	""CRC32""
+
+    ) 
+,
+
+}
+")).
+Eval vm_compute in ("<<<M1836>>>" ++ check (runes_of_ascii "root packet len {
+    match x as metadata {
+        [1, 0, """", ""a	b"", 00] : pack,
+        [""// no comment"", ""x y"", """ ++ [233]%N ++ runes_of_ascii "t" ++ [233]%N ++ runes_of_ascii """] : Packet,
     },
-    @calculatedFrom(""\n"")
-    repeat Foo pack,
-    string asx @lengthOf(x_y_z) `a\`,
-    uint8 trueish @calculatedFrom(""a\""b""),
-    @leftPad( )
-    char[007] a1 @lengthOf(a1) `crlf
-    line`,
-    rootA msg_type,
-    zchar[1] u8x @calculatedFrom(""`tick`""),
+    repeat lengthOf u128,
+    @calculatedFrom(""it's"")
+    @lengthOf(calculatedFrom)
+    @lengthOf(u)
+    metadata {
+        int8 lengthOf `crlf
+                line`,
+    },
+    @tag(4294967296)
+    calculatedFrom {
+        f32 i64_ `" ++ [233]%N ++ runes_of_ascii "`,
+    },
+    @lengthOf(BodyLength)
+    repeat char[65535] float,
+    @calculatedFrom(""\" ++ [233]%N ++ runes_of_ascii """)
+    i64_ {
+        match stringy as _x {
+            //	t
+            [4294967296, 3] : i8i8,
+            [""a\""b""] : x_y_z,
+            3 : len,
+        },
+    },
+    @tag(0)
+    zchar[7] x_y_z,
+    @lengthOf(Header)
+    repeat u64 As `
+        `,// " ++ [27880; 37322]%N ++ runes_of_ascii "
+    @rightPad()
+    /// triple
+    @rightPad('\x00')
+    u16 Header `{ , }`,
+}")).
+Eval vm_compute in ("<<<M271>>>" ++ check (runes_of_ascii "root packet // packet A { u8 x, }
+i8i8 {
+@rightPad (// 50% %s
+)char[]	i64_ ,
+string f32a @calculatedFrom( ""a\""b"" )
+// @lengthOf(
+// packet A { u8 x, }
+, @tag(
+    255 ) @calculatedFrom( ""a	b"" )
+    @lengthOf( u128	)match
+float as metadata{
+""\" ++ [233]%N ++ runes_of_ascii """
+    : x_y_z	,
+    10:
+// `tick` ""quote"" 'q'
+// `tick` ""quote"" 'q'
+Packet ,""""
+:asx , } ,
+    @lengthOf( asx  )/// triple
+match
+    matchKey
+// trailing space 
+// c
+as
+Foo{ ""// no comment""
+    : trueish 42 :len ,	42: options1 ""x y"" :
+x_y_z ""CRC32""
+// a // b
+// packet A { u8 x, }
+:  zchar 0123456789 :
+pack ,}
+, } MetaData crc { string  repeatCount , //	t
+char[] a1  ,
+// 50% %s
+// `tick` ""quote"" 'q'
+char msg_type , pack rootA ,  u64  Pad,}")).
+Eval vm_compute in ("<<<M1153>>>" ++ check (runes_of_ascii "// top
+options // c0
+{ // c1
+uint8x // c2
+= // c3
+007 // c4
+; // c5
+lengthOf // c6
+= // c7
+i8 // c8
+; // c9
+} // c10
+packet // c11
+i64_ // c12
+{ // c13
+@calculatedFrom( // c14
+""1"" // c15
+) // c16
+@tag( // c17
+3 // c18
+) // c19
+@lengthOf( // c20
+rootA // c21
+) // c22
+repeat // c23
+int8 // c24
+Packet // c25
+`tab	here` // c26
+, // c27
+} // c28
+packet // c29
+_x // c30
+{ // c31
+matchKey // c32
+x // c33
+`" ++ [28040; 24687; 31867; 22411]%N ++ runes_of_ascii "` // c34
+, // c35
+int32 // c36
+calculatedFrom // c37
+`100% of %d` // c38
+, // c39
+@lengthOf( // c40
+trueish // c41
+) // c42
+Packet // c43
+, // c44
+repeat // c45
+f32 // c46
+o // c47
+, // c48
+} // c49
+")).
+Eval vm_compute in ("<<<M296>>>" ++ check (runes_of_ascii "options{
+u128 = ""// no comment""
+    }  root
+packet Z9_ { repeat
+char[] i8i8,
+float64 MetaDataX , repeat rootA { msg_type@calculatedFrom(
+    ""\" ++ [233]%N ++ runes_of_ascii """ )
+    , match
+float
+    as	_x // " ++ [128512]%N ++ runes_of_ascii " emoji
+{ ""a\""b""
+:u ,[ ""a	b"" // " ++ [27880; 37322]%N ++ runes_of_ascii "
+,
+    ""CRC32"" // a // b
+,10 /// triple
+,
+    007 , 255 , ""x y"", 42 //	t
+, 3 ]: msg_type
+,[
+    ""1"" //	t
+, ""\n"" ,  4294967296
+, ""abc"" ,	""// no comment"" , //x
+""\n"" ,1] //	t
+: int
+    ,[
+    10 ] :As , [ 0
+]	: zchar , 7// " ++ [27880; 37322]%N ++ runes_of_ascii "
+: A , } , } ,	char[]zchar @lengthOf( tag ) , } options { body
+    = ""1"" trueish	= ' '//x
+; }")).
+Eval vm_compute in ("<<<M1443>>>" ++ check (runes_of_ascii "root packet options1 {
+    // " ++ [27880; 37322]%N ++ runes_of_ascii "
+    @tag(0)
+    len leftPad,
+    @calculatedFrom(""" ++ [233]%N ++ runes_of_ascii "t" ++ [233]%N ++ runes_of_ascii """)
+    stringy a1 ``,
+    @rightPad()
+    a1 `" ++ [28040; 24687; 31867; 22411]%N ++ runes_of_ascii "`,
+    char Header @lengthOf(x) `a\`,
+    uint8x Z9_ `it's`,
+    match roots as o {
+        [""{,}"", ""CRC32""] : o,
+        ""CRC32"" : Pad,
+    },// 50% %s
+    @tag(00)
+    zchar[4294967296] x,
+    @lengthOf(repeatCount)
+    uint16 T,
+    @lengthOf(u128)
+    repeat i64_ {
+        repeat u8 MetaDataX `" ++ [233]%N ++ runes_of_ascii "`,
+        repeat u8x `two words`,
+    },
+}// packet A { u8 x, }")).
+Eval vm_compute in ("<<<M1372>>>" ++ check (runes_of_ascii "options {
+    LittleEndian = true;
+    ArrayPrefixLenType = u32;
+    FixedStringPadChar = ' ';
+}
+packet Order {
+    char[5] seqNo,
+    uint8 Px,
+}
+packet Logon {
+    @rightPad('\x00') char[8] Flags,
+    zchar[3] count,
+    repeat Order,
+}
+root packet Party {
+    repeat Logon,
+    repeat char[1] x,
+    u32 price,
+    u32 Side2 @lengthOf(Body),
+    match price as Body {
+        49 : Order,
+        196 : Logon,
+    },
+    u32 f1 @calculatedFrom(""CR\
+C32""),
+}
+")).
+Eval vm_compute in ("<<<M1819>>>" ++ check (runes_of_ascii "// c
+packet A {
+    i64_ `100% of %d`,
+    @calculatedFrom(""packet"")
+    string Z9_ `{ , }`,
+    match BodyLength as matchKey {
+        7 : MetaDataX,
+    },
+    repeat a1 {
+        repeat Pad,
+    },
+    pack T,
+    u64 MetaDataX,
+    @calculatedFrom(""a	b"")
+    tag {
+        u32 body,
+        pack @lengthOf(_x) `it's`,
+        repeatCount,// c
+        repeat int32 BodyLength,
+    },
+    uint64 tag,
 }
 
 options {
-}
-
-packet crc {
-    // a // b
-    @lengthOf(leftPad)
-    @tag(7)
-    //	t
-    @lengthOf(options1)
-    int32 asx,
-    @rightPad( )
-    pack roots,
-    string a1 `say ""hi""`,
-    match body as matchKey {
-        [""`tick`""] : string_,
-    },
-    //	t
-    repeat uint16 Packet,
-    repeat uint8 i64_,
-    @lengthOf(Pad)
-    /// triple
-    A `// not a comment`,
-    char[] u8x,
-    repeat char[007] pack,
-    A {
-        // " ++ [27880; 37322]%N ++ runes_of_ascii "
-        x {
-            string uint8x @lengthOf(leftPad) `say ""hi""`,
-            Packet T,
-            As @lengthOf(string_) `// not a comment`,
-        },
-        char[] _x @lengthOf(o),
-        len x,
-    },
-    //
+    //x
 }")).
-Eval vm_compute in ("<<<M1935>>>" ++ check (runes_of_ascii "packet packetx {
-}
-
-root packet repeatCount {
-    int16 rootA @lengthOf(len) ``,
-    i32 A @calculatedFrom(""a\\""),
-    i16 asx @calculatedFrom(""x y""),
-    repeat char[] x,
-}
-
-root packet lengthOf {
-    @leftPad( '0')
-    @calculatedFrom(""\" ++ [233]%N ++ runes_of_ascii """)
-    @lengthOf(Z9_)
-    repeat char[] As,
-    @rightPad( ' ' // @lengthOf(
-    )
-    repeat zchar,
-    match a1 as pack {
-        [3] : lengthOf,
-        [007, ""x y""] : A,
-    },
-    repeat chars {
-        char[4294967296] body,
-        body @lengthOf(pack),
-        string Z9_,
-    },
-    @leftPad( ' ' )
-    zchar[255] Header,
-    @tag(0)
-    repeat char[00] roots,
-    match crc as body {
-        ""`tick`"" : a1,
-    },
-    @tag(1)
-    char[] rootA @calculatedFrom(""" ++ [233]%N ++ runes_of_ascii "t" ++ [233]%N ++ runes_of_ascii """),
-}
-
-packet pack {
-    match Packet as repeatCount {
-        //x
-        ""a	b"" : pack,
-    },
-    packetx packetx,//	t
-    match o as Packet {
-        // a // b
-        0123456789 : lengthOf,
-        // `tick` ""quote"" 'q'
-        ""CRC32"" : i64_,
-        1 : asx,
-        ""\" ++ [233]%N ++ runes_of_ascii """ : o,
-        ""a	b"" : u128,
-        ""// no comment"" : Packet,
-        // `tick` ""quote"" 'q'
-    },
-    @leftPad( '0')
-    @calculatedFrom(""" ++ [128512]%N ++ runes_of_ascii """)
-    A @calculatedFrom(""{,}"") `u8 x,`,
-    @tag(255)
-    float32 MetaDataX,
-    char[] u128 @lengthOf(zchar),
-    match x as _x {
-        00 : A,
-    },
-    //	t
-}")).
-Eval vm_compute in ("<<<M1385>>>" ++ check (runes_of_ascii "// top
-options // c0
-{ LittleEndian
+Eval vm_compute in ("<<<M1177>>>" ++ check (runes_of_ascii "// top
+options // c0a
+  // c0b
+{ f32a
     // c2
-= false ; // c5
-StringPrefixLenType
-    // c6
-= // c7a
+= // c3
+0 } // c5
+packet trueish // c7a
   // c7b
-u16 // c8
-;
+{ // c8
+}
     // c9
-FixedStringPadFromLeft // c10
-= // c11a
-  // c11b
-true // c12a
-  // c12b
-; // c13
-FixedStringPadChar
-    // c14
-= // c15
-'0' ; }
-    // c18
-packet // c19
-Fill
-    // c20
-{ // c21a
-  // c21b
-} // c22
-root
-    // c23
-packet // c24a
-  // c24b
-Order
-    // c25
-{ repeat // c27
-Fill // c28a
-  // c28b
-, char[]
-    // c30
-clOrdID // c31a
-  // c31b
-, // c32
-@rightPad // c33
-(
-    // c34
-'\x00' // c35a
-  // c35b
-) char[ 4 // c38a
-  // c38b
-] lastPx
-    // c40
-, // c41a
-  // c41b
-char[] // c42
-OrderId
-    // c43
-, // c44a
-  // c44b
-int8 tag7
-    // c46
-, // c47
-u8 f1 ,
-    // c50
-u16 count // c52
-@lengthOf( // c53a
-  // c53b
-Body ) // c55
-, // c56a
-  // c56b
-match f1 as Body // c60
-{ // c61a
-  // c61b
-[ 159 , 49
-    // c65
-] : // c67a
-  // c67b
-Fill
-    // c68
-,
-    // c69
-} , // c71
-u16
-    // c72
-Tail
-    // c73
-@calculatedFrom( // c74a
-  // c74b
-""CRC32""
-    // c75
-) ,
-    // c77
-} // c78a
-  // c78b
-")).
-Eval vm_compute in ("<<<M104>>>" ++ check (runes_of_ascii "MetaData Z9_{ string roots
-, repeatCount packetx`say ""hi""`, }
-//
-// packet A { u8 x, }
-packet float
-{  repeat
-char[]	metadata ,
-zchar[ 00 ] leftPad @calculatedFrom(""" ++ [233]%N ++ runes_of_ascii "t" ++ [233]%N ++ runes_of_ascii """ )
-`" ++ [233]%N ++ runes_of_ascii "`,string T
-    @lengthOf( Pad)
-`doc`
-, match f32a as
-    crc { ""x y"" :Foo
-, // @lengthOf(
-0: _x [ ""1"" ]
-    :
-// a // b
-// packet A { u8 x, }
-As [ 255 , 1 ,"""" ,	""1"", ""abc"" , """ ++ [233]%N ++ runes_of_ascii "t" ++ [233]%N ++ runes_of_ascii """	,
-    10 ] :  leftPad	,// @lengthOf(
-""{,}"" :
-    a1  4294967296  :	body ,
-    //
-    } , lengthOf
-@calculatedFrom(
-    ""\" ++ [233]%N ++ runes_of_ascii """)
-    , // packet A { u8 x, }
-@calculatedFrom( ""`tick`""
-    ) @lengthOf(
-u
-)  @leftPad (
-    '0'
-) match o as BodyLength  { [
-    3
-,
-    1 ,""a\\"" ,""`tick`"" ,// @lengthOf(
-1, 1 ]: asx , [ ""a	b""
-, 255 ,
-3
-    , ""abc""
-    ,65535 ] :
-    asx ,
-10
-:Z9_
-, [
-10, //
-""CRC32"", 7
-] : roots
-, } ,
-    // 50% %s
-    u16 a1 ,  @tag( 00) uint32	MetaDataX
-`u8 x,` , @leftPad( '\x00')
-    @rightPad //x
-(
-    )
-    i64
-calculatedFrom
-,	}
-")).
-Eval vm_compute in ("<<<M1909>>>" ++ check (runes_of_ascii "root packet rootA {
-}
-
-packet Z9_ {
-    repeat char[007] f32a,
-    @rightPad( )
-    u32 Header `a\`,
-    repeat Z9_,
-    repeat i8i8 int `u8 x,`,// `tick` ""quote"" 'q'
-    uint8x,
-    f64 i8i8 `" ++ [28040; 24687; 31867; 22411]%N ++ runes_of_ascii "`,
-    @tag(3)
-    // `tick` ""quote"" 'q'
-    @tag(3)
-    @tag(10)
-    repeat int {
-        MetaDataX,
-    },
-    @tag(10)
-    int8 pack @lengthOf(x),
-}
-
-packet metadata {
-    @calculatedFrom(""" ++ [233]%N ++ runes_of_ascii "t" ++ [233]%N ++ runes_of_ascii """)
-    repeat rootA uint8x,
-    @calculatedFrom(""\n"")
-    @lengthOf(len)
-    BodyLength {
-        matchKey f32a `a\`,
-    },
-    char[] leftPad `tab	here`,
-    // " ++ [27880; 37322]%N ++ runes_of_ascii "
-    u32 a1,
-}
-
-packet trueish {
-    @tag(007)
-    f64 f32a @calculatedFrom("""") `say ""hi""`,
-    @calculatedFrom(""packet"")
-    @calculatedFrom(""" ++ [28040; 24687]%N ++ runes_of_ascii """)
-    repeat char[3] zchar `
-        `,
-}
-
-MetaData tag {
-}")).
-Eval vm_compute in ("<<<M47>>>" ++ check (runes_of_ascii "packet
-matchKey// a // b
-{@lengthOf(  chars ) options1@lengthOf( len	), match //x
-Packet as Z9_{ [ """ ++ [28040; 24687]%N ++ runes_of_ascii """ , ""1"" , 42
-    ] : u128 // @lengthOf(
-, ""1"" :  roots // c
-,
-00
-: packetx 007 :  repeatCount , 0 :u8x
-    ,
-    //	t
-    } , match leftPad // packet A { u8 x, }
-as msg_type { """"
-// @lengthOf(
-//x
-: x,
-    ""`tick`"" : u128
-    ,42
-: u128
-,
-[7 ,	0123456789 , ""\" ++ [233]%N ++ runes_of_ascii """ , 7  ]:
-lengthOf ,""{,}"" :
-T ,  ""packet""
-: Logon} /// triple
-,
-    //
-    char
-    Packet
-, repeat trueish uint8x ,
-repeat zchar[  0 ] pack
-    ,  string Pad,uint16	i8i8
-`say ""hi""` , }
-    packet
-pack{ string
-tag
-    @calculatedFrom(
-""// no comment"" // c
-) , } MetaData rootA
-{string BodyLength, }
-")).
-Eval vm_compute in ("<<<M1338>>>" ++ check (runes_of_ascii "// top
-packet
-    // c0
-Logon {
-    // c2
-string // c3
-user
-    // c4
-,
-    // c5
-} root packet // c8a
-  // c8b
-Frame // c9a
-  // c9b
-{
-    // c10
-u8
-    // c11
-K // c12a
-  // c12b
-,
-    // c13
-match K // c15a
+MetaData _x // c11
+{ char[ // c13a
+  // c13b
+0123456789 // c14
+] // c15a
   // c15b
-as
+zchar
     // c16
-Body {
-    // c18
-1 // c19
-: // c20a
-  // c20b
-Logon // c21
-, // c22
-2
-    // c23
-:
-    // c24
-Logout // c25
-, // c26a
-  // c26b
-} , // c28a
-  // c28b
-Tail , } packet // c32
-Logout // c33a
-  // c33b
-{ // c34
-u16 // c35
-reason // c36a
-  // c36b
-,
-    // c37
-} // c38a
-  // c38b
-packet Tail
-    // c40
-{ // c41a
-  // c41b
-u32 crc // c43
-, } // c45
-")).
-Eval vm_compute in ("<<<M1527>>>" ++ check (runes_of_ascii "MetaData pack {
-    float32 Header `two words`,
-    rootA charz `" ++ [233]%N ++ runes_of_ascii "`,//
-    int32 falsey `doc`,
-}
-
-packet matchKey {
-    i64_ {
-        float64 tag @lengthOf(msg_type),
-        u8x f32a,
-        Pad {
-            char[10] f32a `// not a comment`,
-        },
-        int {
-            repeat packetx {
-                char[] T @calculatedFrom(""it's""),
-            },
-        },
-    },
-    char[255] trueish @lengthOf(calculatedFrom),
-    repeat rootA string_,
-}
-
-packet x_y_z {
-    @lengthOf(i64_)
-    BodyLength `" ++ [233]%N ++ runes_of_ascii "`,
-}")).
-Eval vm_compute in ("<<<M1378>>>" ++ check (runes_of_ascii "options{ArrayPrefixLenType= 
-u64  ;  FixedStringPadFromLeft
-    = 
-true
-
-;
-
-FixedStringPadChar
-=
-'0'
-
-    ;}
-
-    packet 
-Order {	}root
-    packet Leg  {
-
-char[]
-Ref ,repeat  Order  ,
-f32 Acct  ,
-@leftPad (  '0'
-    )
-    char[ 10
-
-]  venue
-    ,	@rightPad (
-	'0' )	char[3
-    ]
-
-seqNo
-, repeat
-u64 Px ,u8
-
-Flags
-    ,	u32
-
-    lastPx	@lengthOf(Body
-	) 
-,
-	match 
-Flags  as
-    Body	{ 185
-    :
-    Order
-
-, }
-
-,
-u16
-	sym
-
-@calculatedFrom(  ""CRC32""	)  ,
-} ")).
-Eval vm_compute in ("<<<M1135>>>" ++ check (runes_of_ascii "// top
-packet // c0
-_x // c1
-{ // c2
-match // c3
-Foo // c4
-as // c5
-Z9_ // c6
-{ // c7
-""a	b"" // c8
-: // c9
-Pad // c10
-, // c11
-} // c12
-, // c13
-repeat // c14
-x // c15
-`// not a comment` // c16
-, // c17
-@rightPad // c18
-( // c19
-' ' // c20
-) // c21
-@calculatedFrom( // c22
-""a\\"" // c23
-) // c24
-metadata // c25
-MetaDataX // c26
-, // c27
-@tag( // c28
-0 // c29
-) // c30
-Logon // c31
-int // c32
-`two words` // c33
-, // c34
-} // c35
-")).
-Eval vm_compute in ("<<<M16>>>" ++ check (runes_of_ascii "packet pack {@rightPad (
-    '\x00' )	options1  ,repeat
-f32
-    Packet`u8 x,`
-, repeat  Logon { repeat
-    a1 {char[  0 ]
-    tag
-,
-u64 leftPad,
-    } // 50% %s
-, repeatCount ,repeat // packet A { u8 x, }
-BodyLength /// triple
-, }
-    , repeat char[] packetx,
+, // c17a
+  // c17b
+string // c18
+crc ,
+    // c20
 char[
-00]tag@lengthOf(o
-) , }packet matchKey { repeat As	u8x `it's` , }options{}MetaData
-string_
-{ msg_type
-    Z9_ `line1
-line2` ,} //x")).
-Eval vm_compute in ("<<<M1836>>>" ++ check (runes_of_ascii "packet tag {
+    // c21
+1 ] // c23a
+  // c23b
+options1
+    // c24
+, uint8 // c26a
+  // c26b
+repeatCount
+    // c27
+, // c28
+} // c29
+")).
+Eval vm_compute in ("<<<M1733>>>" ++ check (runes_of_ascii "packet tag {
     @tag(00)
     match x_y_z as Packet {
         [3] : packetx,
@@ -635,534 +777,430 @@ packet Packet {
     int,
     repeat string Foo,
 }")).
-Eval vm_compute in ("<<<M1578>>>" ++ check (runes_of_ascii "// top
-packet float {
-    // c2
-    @rightPad(
-            // c4
-        )
-    // c5
-    rootA @lengthOf(trueish),
-    // c10
-    stringy @lengthOf(matchKey),
-    // c15
-    char[4294967296] pack @lengthOf(uint8x),
-    // c23
-}
-
-// c24
-root packet trueish {
-    // c28
-    repeat uint64 u128 `say ""hi""`,
-    // c33
-}
-// c34")).
-Eval vm_compute in ("<<<M298>>>" ++ check (runes_of_ascii "// trailing space 
-options { MetaDataX =	zchar[	3
-    ] ; packetx = true u128= ""\" ++ [233]%N ++ runes_of_ascii """
-    // packet A { u8 x, }
-    ; x = 1 x
-= true;  } MetaData u8x  { float64 leftPad  , a1
-As `it's` , int16 // a // b
-metadata
-, As Packet
-    `100% of %d`, leftPad uint8x
-`it's` , As
-Foo, // 50% %s
+Eval vm_compute in ("<<<M196>>>" ++ check (runes_of_ascii "MetaData // 50% %s
+body
+    {
+    Foo Packet `a\` ,T float , int64
+Logon
+`// not a comment`,
+zchar[ 0	]
+i64_/// triple
+`" ++ [28040; 24687; 31867; 22411]%N ++ runes_of_ascii "` , // `tick` ""quote"" 'q'
+char[7 // @lengthOf(
+] calculatedFrom , int16
+Logon
+    ,
+} MetaData i64_{ int//
+leftPad
+`// not a comment`
+,
+trueish	Logon
+    , string Header `doc`, // packet A { u8 x, }
 }
 ")).
-Eval vm_compute in ("<<<M1750>>>" ++ check (runes_of_ascii "packet P1 {
+Eval vm_compute in ("<<<M1319>>>" ++ check (runes_of_ascii "packet A {
     u8 a,
 }
-
-packet P2 {
-    P1,
+packet B {
+    u16 b,
 }
-
-packet P3 {
-    P2,
-    P1,
+packet C {
+    u32 c,
 }
-
-packet P4 {
-    repeat P3,
-    P2,
+root packet M {
+    u16 Kc, u16 Kb, u16 Ka,
+    match Kc as X {
+        9 : A,
+        10 : B,
+    },
+    match Kb as Y {
+        2 : C,
+        1 : A,
+    },
+    match Ka as Z {
+        1 : B,
+    },
+    A, B, C,
 }
-
-root packet P5 {
-    P4,
-    P3,
-    P1,
+")).
+Eval vm_compute in ("<<<M1397>>>" ++ check (runes_of_ascii "options {
+    LittleEndian = true;
+}
+packet Sub {
+    u8 a,
+    u16 SubSum @calculatedFrom(""CRC16""),
+}
+root packet Frame {
+    u16 MsgType,
+    u16 BodyLen @lengthOf(Body),
+    Sub Body,
+    string note,
+    u16 Checksum @calculatedFrom(""CRC16""),
+    u8 tail,
+}
+")).
+Eval vm_compute in ("<<<M467>>>" ++ check (runes_of_ascii "packet
+    asx { @calculatedFrom(
+""""  ) @tag( 255 )repeat
+// packet A { u8 x, }
+// trailing space 
+int16 u8x
+,
+@tag(
+    //
+    007 )
+    @tag( @tag( 0
+    /// triple
+    ) @tag( 1) u
+    @lengthOf( T ),
+// `tick` ""quote"" 'q'
+//x
+} // " ++ [128512]%N ++ runes_of_ascii " emoji")).
+Eval vm_compute in ("<<<M507>>>" ++ check (runes_of_ascii "packet
+    asx { @calculatedFrom(
+""""  ) @tag( 255 )repeat
+// packet A { u8 x, }
+// trailing space 
+int16 u8x
+,
+@tag(
+    //
+    007 )
+    @tag( 0
+    /// triple
+    ) @tag( 1) u
+    @lengthOf( T T ),
+// `tick` ""quote"" 'q'
+//x
+} // " ++ [128512]%N ++ runes_of_ascii " emoji")).
+Eval vm_compute in ("<<<M444>>>" ++ check (runes_of_ascii "packet
+    asx { @calculatedFrom(
+""""  ) @tag( 255 )repeat
+// packet A { u8 x, }
+// trailing space 
+int16 f32
+,
+@tag(
+    //
+    007 )
+    @tag( 0
+    /// triple
+    ) @tag( 1) u
+    @lengthOf( T ),
+// `tick` ""quote"" 'q'
+//x
+} // " ++ [128512]%N ++ runes_of_ascii " emoji")).
+Eval vm_compute in ("<<<M471>>>" ++ check (runes_of_ascii "packet
+    asx { @calculatedFrom(
+""""  ) @tag( 255 )repeat
+// packet A { u8 x, }
+// trailing space 
+int16 u8x
+,
+@tag(
+    //
+    007 )
+    @tag( 
+    /// triple
+    ) @tag( 1) u
+    @lengthOf( T ),
+// `tick` ""quote"" 'q'
+//x
+} // " ++ [128512]%N ++ runes_of_ascii " emoji")).
+Eval vm_compute in ("<<<M501>>>" ++ check (runes_of_ascii "packet
+    asx { @calculatedFrom(
+""""  ) @tag( 255 )repeat
+// packet A { u8 x, }
+// trailing space 
+int16 u8x
+,
+@tag(
+    //
+    007 )
+    @tag( 0
+    /// triple
+    ) @tag( 1) u
+     T ),
+// `tick` ""quote"" 'q'
+//x
+} // " ++ [128512]%N ++ runes_of_ascii " emoji")).
+Eval vm_compute in ("<<<M1337>>>" ++ check (runes_of_ascii "packet Logon {
+    string user,
+}
+root packet Frame {
     u8 K,
     match K as Body {
-        4 : P4,
-        3 : P3,
-        2 : P2,
-        1 : P1,
+        1 : Logon,
+        2 : Logout,
     },
-}")).
-Eval vm_compute in ("<<<M417>>>" ++ check (runes_of_ascii "packet
-    asx { @calculatedFrom(
-""""  ) @tag( @tag( 255 )repeat
-// packet A { u8 x, }
-// trailing space 
-int16 u8x
-,
-@tag(
-    //
-    007 )
-    @tag( 0
-    /// triple
-    ) @tag( 1) u
-    @lengthOf( T ),
-// `tick` ""quote"" 'q'
-//x
-} // " ++ [128512]%N ++ runes_of_ascii " emoji")).
-Eval vm_compute in ("<<<M472>>>" ++ check (runes_of_ascii "packet
-    asx { @calculatedFrom(
-""""  ) @tag( 255 )repeat
-// packet A { u8 x, }
-// trailing space 
-int16 u8x
-,
-@tag(
-    //
-    007 )
-    @tag( 0 0
-    /// triple
-    ) @tag( 1) u
-    @lengthOf( T ),
-// `tick` ""quote"" 'q'
-//x
-} // " ++ [128512]%N ++ runes_of_ascii " emoji")).
-Eval vm_compute in ("<<<M413>>>" ++ check (runes_of_ascii "packet
-    asx { @calculatedFrom(
-""""  @tag( ) 255 )repeat
-// packet A { u8 x, }
-// trailing space 
-int16 u8x
-,
-@tag(
-    //
-    007 )
-    @tag( 0
-    /// triple
-    ) @tag( 1) u
-    @lengthOf( T ),
-// `tick` ""quote"" 'q'
-//x
-} // " ++ [128512]%N ++ runes_of_ascii " emoji")).
-Eval vm_compute in ("<<<M396>>>" ++ check (runes_of_ascii "packet
-    asx  @calculatedFrom(
-""""  ) @tag( 255 )repeat
-// packet A { u8 x, }
-// trailing space 
-int16 u8x
-,
-@tag(
-    //
-    007 )
-    @tag( 0
-    /// triple
-    ) @tag( 1) u
-    @lengthOf( T ),
-// `tick` ""quote"" 'q'
-//x
-} // " ++ [128512]%N ++ runes_of_ascii " emoji")).
-Eval vm_compute in ("<<<M387>>>" ++ check (runes_of_ascii "
-    asx { @calculatedFrom(
-""""  ) @tag( 255 )repeat
-// packet A { u8 x, }
-// trailing space 
-int16 u8x
-,
-@tag(
-    //
-    007 )
-    @tag( 0
-    /// triple
-    ) @tag( 1) u
-    @lengthOf( T ),
-// `tick` ""quote"" 'q'
-//x
-} // " ++ [128512]%N ++ runes_of_ascii " emoji")).
-Eval vm_compute in ("<<<M1324>>>" ++ check (runes_of_ascii "options	{	FixedStringPadChar =	'0'
-;
-	}
-
-    packet 
-Q{ zchar[ 4]z,  @rightPad
-
-('\x00')
-
-    char[
-
-    3]
-n  ,
-	char[ 5 ] 
-d  , }
-	root	packet R
-	{
-    Q
-
-,
-zchar[  8	]
-
-top 
-, repeat  zchar[
-    2  ] zs
-,}
+    Tail,
+}
+packet Logout {
+    u16 reason,
+}
+packet Tail {
+    u32 crc,
+}
 ")).
-Eval vm_compute in ("<<<M1954>>>" ++ check (runes_of_ascii "
-
-  // top
-
-root  // c0
-
-  packet// c1
-	P	{ // c3
-      u16
-
-a , 
-u32 
-
-// c7
-Sum	// c8a
-
-// c8b
-	@calculatedFrom( ""CRC32"" 
-      // c10
-	) 
-	// c11
-
-,	// c12a
-  // c12b
-	  } 
-	    // c13
- 
-")).
-Eval vm_compute in ("<<<M151>>>" ++ check (runes_of_ascii "
-MetaData u128 {zchar[
-// " ++ [128512]%N ++ runes_of_ascii " emoji
-// 50% %s
-4294967296 ]
-lengthOf`a\`, } packet
-    leftPad {
-@rightPad('0') calculatedFrom float // 50% %s
-`" ++ [28040; 24687; 31867; 22411]%N ++ runes_of_ascii "` , char[255	]
-    metadata , }")).
-Eval vm_compute in ("<<<M485>>>" ++ check (runes_of_ascii "packet
-    asx { @calculatedFrom(
-""""  ) @tag( 255 )repeat
-// packet A { u8 x, }
-// trailing space 
-int16 u8x
+Eval vm_compute in ("<<<M31>>>" ++ check (runes_of_ascii "MetaData u128
+    {// @lengthOf(
+len x
+    `it's` ,BodyLength
+    Foo
+`doc`, string_ a1 `{ , }`  ,	calculatedFrom u8x `u8 x,`
+, MetaDataX// trailing space 
+matchKey ,
+}
+packet u128	{ }")).
+Eval vm_compute in ("<<<M720>>>" ++ check (runes_of_ascii "packet
+crc
+{repeat  Foo A  `u8 x,` ,	@lengthOf( uint8x ) string string
+matchKey @lengthOf( stringy ) `a\`
 ,
-@tag(
-    //
-    007 )
-    @tag( 0
-    /// triple
-    )")).
-Eval vm_compute in ("<<<M627>>>" ++ check (runes_of_ascii "MetaData u
+    // c
+    }
+MetaData chars{
+leftPad
+    //	t
+    crc
+`" ++ [233]%N ++ runes_of_ascii "`
+,}")).
+Eval vm_compute in ("<<<M716>>>" ++ check (runes_of_ascii "packet
+crc
+{repeat  F" ++ [127]%N ++ runes_of_ascii "oo A  `u8 x,` ,	@lengthOf( uint8x ) string
+matchKey @lengthOf( stringy ) `a\`
+,
+    // c
+    }
+MetaData chars{
+leftPad
+    //	t
+    crc
+`" ++ [233]%N ++ runes_of_ascii "`
+,}")).
+Eval vm_compute in ("<<<M715>>>" ++ check (runes_of_ascii "packet
+crc
+{repeat  Foo A  `u8 x,` ,	@lengthOf( uint8x ) string
+matchKey @lengthOf( stringy ) `a\`
+,
+    // c
+    }
+MetaData chars{
+leftPad
+    //	t
+    crc
+`" ++ [233]%N ++ runes_of_ascii "`
+,")).
+Eval vm_compute in ("<<<M623>>>" ++ check (runes_of_ascii "MetaData u
+    { } MetaData o
+{ float uint8x
+`100% of %d` ,repeatCount u8x, string_ ,
+leftPad i32
+    Foo , int64 x `two words` , calculatedFrom
+stringy `a\` ,
+}
+")).
+Eval vm_compute in ("<<<M686>>>" ++ check (runes_of_ascii "MetaData u
     { } MetaData o
 { float uint8x
 `100% of %d` ,repeatCount u8x, string_ leftPad
-, , i32
+, i32
     Foo , int64 x `two words` , calculatedFrom
 stringy `a\` ,
-}
+
 ")).
-Eval vm_compute in ("<<<M563>>>" ++ check (runes_of_ascii "MetaData u
-    { MetaData } o
+Eval vm_compute in ("<<<M671>>>" ++ check (runes_of_ascii "MetaData u
+    { } MetaData o
 { float uint8x
 `100% of %d` ,repeatCount u8x, string_ leftPad
 , i32
     Foo , int64 x `two words` , calculatedFrom
-stringy `a\` ,
+ `a\` ,
 }
 ")).
-Eval vm_compute in ("<<<M556>>>" ++ check (runes_of_ascii "MetaData u
-     } MetaData o
-{ float uint8x
-`100% of %d` ,repeatCount u8x, string_ leftPad
-, i32
-    Foo , int64 x `two words` , calculatedFrom
-stringy `a\` ,
-}
-")).
-Eval vm_compute in ("<<<M1816>>>" ++ check (runes_of_ascii "options{ 
-}	options
-    {
-
-    MetaDataX  =
-    char
-	;
-
-    }
-
-MetaData
-    Pad	{
-	i8
-
-    metadata  ,
-	string stringy
-
-, 
-
-// c
-
-int8
-	As`{ , }`
-    ,} ")).
-Eval vm_compute in ("<<<M1924>>>" ++ check (runes_of_ascii "
-
-  packet A
-    {match k 
-as
-	n  {
-[""a""
-, 22
-,	""c c""	,
-    4
-,
-    ""e"",
-
-    66 ,
-""g""	,
-
-8
-,
-""i""
-,
-10
-,
-
-    ""k""  ,
-12
-	]:
-	B
-	, 2
-	:
-	C } ,}")).
-Eval vm_compute in ("<<<M1466>>>" ++ check (runes_of_ascii "
-packet
-A
-{match k as
-
-n  { [
-	""a"" ,
-
-    ""bb"" ,
-
-    ""c c""
-    , ""d""
-    , 
-""e"" ,
-    ""f""
-
-    , ""g""  ,	""h""
-    ,""i""
-] : B	,
-	2  :
-C } ,}")).
-Eval vm_compute in ("<<<M1277>>>" ++ check (runes_of_ascii "
-
-  packet
-
-    B { u8
-    a ,
-}root
-packet
-P { u8 
-K,
-	match
-    K
-    as
-	Body{
-
-1 :
-
-B , } ,u16 L
-    @lengthOf( 
-Body  ) ,
-}
-")).
-Eval vm_compute in ("<<<M1640>>>" ++ check (runes_of_ascii "packet A {
-    Inner {
-        u8 x `tab
-        	x`,
-        Deep {
-            u8 y `tab
-            	x`,
-        },
-    },
-}")).
-Eval vm_compute in ("<<<M1732>>>" ++ check (runes_of_ascii "packet	u
-
-{
-
-    Foo
-	@lengthOf(
-	crc )	`{ , }` 
-        //	t
-    //x
-  ,
-
-    @tag( /// triple
-	  007
-	) o
-	,
-	}
-")).
-Eval vm_compute in ("<<<M1205>>>" ++ check (runes_of_ascii "options { // c
-} options { MetaDataX = char ; } MetaData Pad { i8 metadata , string stringy , int8 As `{ , }` , }")).
-Eval vm_compute in ("<<<M1237>>>" ++ check (runes_of_ascii "options { } options { MetaDataX = char ; } MetaData Pad { i8 metadata , string stringy // c
-, int8 As `{ , }` , }")).
-Eval vm_compute in ("<<<M176>>>" ++ check (runes_of_ascii "packet
-    _x { @lengthOf( packetx
-) _x @lengthOf(// c
-f32a), float64 Header @calculatedFrom( ""it's"" ) , }")).
-Eval vm_compute in ("<<<M896>>>" ++ check (runes_of_ascii "packet A {
-  match k as n {
-    [""a"", 22, ""c c"", 4, ""e"", 66, ""g"", 8, ""i"", 10, ""k""] : B
-    2 : C
-  },
-}")).
-Eval vm_compute in ("<<<M1959>>>" ++ check (runes_of_ascii "
-packet A
-
-    { match
-
-    k as
-    n{
-[
-1 ,
-	22 ,
-    007 
-,	4 
-, 5 ]
-	:
-B
-,
-
-2	:
-C
-}
-,	}
-
-")).
-Eval vm_compute in ("<<<M1406>>>" ++ check (runes_of_ascii "
-options
-{  Packet	//x
-
-  =""a\\"" Logon
-
-= true f32a
-
-= true  // 50% %s
-;	falsey=  false ;
-
-}
-
-")).
-Eval vm_compute in ("<<<M384>>>" ++ check (runes_of_ascii "root packet SimpleMessage {
-    uint16 MsgType `" ++ [28040; 24687; 31867; 22411]%N ++ runes_of_ascii "`,
-    string JsonBody `Json" ++ [23383; 31526; 20018; 28040; 24687; 20307]%N ++ runes_of_ascii "`,
-}")).
-Eval vm_compute in ("<<<M844>>>" ++ check (runes_of_ascii "packet A {
-  match k as n {
-    [""a"", 22, ""c c"", 4, ""e"", 66, ""g""] : B
-    2 : C
-  },
-}")).
-Eval vm_compute in ("<<<M1929>>>" ++ check (runes_of_ascii "packet A {
-    match k as n {
-        [""a"", 22, ""c c""] : B,
-        2 : C,
-    },
-}")).
-Eval vm_compute in ("<<<M1881>>>" ++ check (runes_of_ascii "packet Inner {
-    u8 a,
+Eval vm_compute in ("<<<M1488>>>" ++ check (runes_of_ascii "// top
+options {
+    // c1a
+    // c1b
+    LittleEndian = true;
 }
 
 root packet P {
-    repeat Inner items,
-    u8 x,
+    // c10
+    u16 a,// c13
+    u32 Sum @calculatedFrom(""CRC32""),
 }")).
-Eval vm_compute in ("<<<M1140>>>" ++ check (runes_of_ascii "// top
-root
-    // c0
-packet // c1
-a1 // c2a
-  // c2b
-{ } // c4a
-  // c4b
+Eval vm_compute in ("<<<M1643>>>" ++ check (runes_of_ascii "
+options  {} options {
+MetaDataX	=
+char  ;
+
+} MetaData Pad
+    {i8 
+// c
+	metadata 
+, string	stringy
+
+    ,
+    int8 As
+
+`{ , }`,	}
 ")).
-Eval vm_compute in ("<<<M967>>>" ++ check (runes_of_ascii "MetaData M {
-    u8 x `100% of %s %d %v`,
-    T t `100% of %s %d %v`,
+Eval vm_compute in ("<<<M1816>>>" ++ check (runes_of_ascii "
+
+  options  {	}  options
+{ MetaDataX =	char;	} 	 // c
+  	MetaData
+Pad
+	{
+	i8	metadata ,
+string
+
+stringy	, int8
+    As `{ , }`,
+	} ")).
+Eval vm_compute in ("<<<M1275>>>" ++ check (runes_of_ascii "packet B {
+    u8 a,
+}
+root packet P {
+    u8 K,
+    match K as Body {
+        1 : B,
+    },
+    u16 L @lengthOf(Body),
+}
+")).
+Eval vm_compute in ("<<<M1249>>>" ++ check (runes_of_ascii "options { } options { MetaDataX = char ; } MetaData Pad { i8 metadata , string stringy , int8 As `{ , }` , } // c
+")).
+Eval vm_compute in ("<<<M1228>>>" ++ check (runes_of_ascii "options { } options { MetaDataX = char ; } MetaData Pad {
+// c
+i8 metadata , string stringy , int8 As `{ , }` , }")).
+Eval vm_compute in ("<<<M913>>>" ++ check (runes_of_ascii "packet A {
+  match k as n {
+    [""a"", ""bb"", 007, ""d"", ""e"", 66, ""g"", ""h"", 9, ""j"", ""k"", 12] : B
+    2 : C
+  },
+}")).
+Eval vm_compute in ("<<<M971>>>" ++ check (runes_of_ascii "packet A {
+    u16 len @lengthOf(body) `%`,
+    u32 crc @calculatedFrom(""CRC32"") `%`,
+    string body,
+}")).
+Eval vm_compute in ("<<<M882>>>" ++ check (runes_of_ascii "packet A {
+  match k as n {
+    [""a"", 22, ""c c"", 4, ""e"", 66, ""g"", 8, ""i"", 10] : B,
+    2 : C
+  },
+}")).
+Eval vm_compute in ("<<<M1567>>>" ++ check (runes_of_ascii "MetaData
+    f32a// @lengthOf(
+{ // `tick` ""quote"" 'q'
+
+	charz
+    msg_type ,
+
+    } 	 // " ++ [27880; 37322]%N ++ runes_of_ascii "
+")).
+Eval vm_compute in ("<<<M1259>>>" ++ check (runes_of_ascii "
+options	{LittleEndian  =	true
+;
+
+    }root packet
+	P {repeat 
+char  cs
+
+, u8
+x 
+,
+
+}
+")).
+Eval vm_compute in ("<<<M1664>>>" ++ check (runes_of_ascii "packet A {
+    match k as n {
+        [1, 22, ""c c"", 4, 5] : B,
+        2 : C,
+    },
+}")).
+Eval vm_compute in ("<<<M991>>>" ++ check (runes_of_ascii "packet A {
+    u32 crc @calculatedFrom(""%d%s""),
+    @calculatedFrom(""%d%s"") u8 y,
+}")).
+Eval vm_compute in ("<<<M832>>>" ++ check (runes_of_ascii "packet A {
+  match k as n {
+    [1, 22, ""c c"", 4, 5, ""f""] : B,
+    2 : C
+  },
+}")).
+Eval vm_compute in ("<<<M57>>>" ++ check (runes_of_ascii "options {
+asx =""{,}"" } MetaData
+    len
+    { char[] Packet`say ""hi""` , }
+")).
+Eval vm_compute in ("<<<M788>>>" ++ check (runes_of_ascii "packet A {
+  match k as n {
+    [""a"", ""bb"", ""c c""] : B
+    2 : C
+  },
 }")).
 Eval vm_compute in ("<<<M377>>>" ++ check (runes_of_ascii "packet
     int // 50% %s
 {Logon @calculatedFrom( ""1"") ,} // 50% %s")).
-Eval vm_compute in ("<<<M375>>>" ++ check (runes_of_ascii "// a // b
-MetaData//x
-repeatCount {
-string uint8x ,
-    } 	 ")).
+Eval vm_compute in ("<<<M275>>>" ++ check (runes_of_ascii "  root packet lengthOf { repeatCount { uint64 u8x , }
+    , }")).
 Eval vm_compute in ("<<<M771>>>" ++ check (runes_of_ascii "packet A {
   match k as n {
     [1] : B,
     2 : C
   },
 }")).
-Eval vm_compute in ("<<<M1932>>>" ++ check (runes_of_ascii "
+Eval vm_compute in ("<<<M961>>>" ++ check (runes_of_ascii "MetaData M {
+    u8 x `tab
+	x`,
+    T t `tab
+	x`,
+}")).
+Eval vm_compute in ("<<<M1681>>>" ++ check (runes_of_ascii "options
+	{ 	 // c
+  A
+=
+""// no comment""
 
-  packet 
-
-// 50% %s
-  //
-
-  len{ uint8x
-A
-
-, }
+}
 
 ")).
-Eval vm_compute in ("<<<M968>>>" ++ check (runes_of_ascii "root packet A {
-    u8 x `100% of %s %d %v`,
-}")).
-Eval vm_compute in ("<<<M1462>>>" ++ check (runes_of_ascii "root packet A {
-    u8 x `a
-        b`,
-}")).
-Eval vm_compute in ("<<<M1936>>>" ++ check (runes_of_ascii "root packet A {
-    u8 x `a
-    b`,
-}")).
-Eval vm_compute in ("<<<M5>>>" ++ check (runes_of_ascii "MetaData float  { uint16 float , }")).
-Eval vm_compute in ("<<<M957>>>" ++ check (runes_of_ascii "packet A {
+Eval vm_compute in ("<<<M1855>>>" ++ check (runes_of_ascii "
+packet
+
+    A {u8	x
+    `x
+` ,
+    }")).
+Eval vm_compute in ("<<<M962>>>" ++ check (runes_of_ascii "root packet A {
     u8 x `tab
 	x`,
 }")).
-Eval vm_compute in ("<<<M183>>>" ++ check (runes_of_ascii "  packet len { repeat A , }
+Eval vm_compute in ("<<<M525>>>" ++ check (runes_of_ascii "packet
+    asx { @calculatedFrom(")).
+Eval vm_compute in ("<<<M1788>>>" ++ check (runes_of_ascii "packet A {
+    u8 x `d" ++ [133]%N ++ runes_of_ascii "`,// c" ++ [133]%N ++ runes_of_ascii "
+}")).
+Eval vm_compute in ("<<<M580>>>" ++ check (runes_of_ascii "MetaData u
+    { } MetaData o")).
+Eval vm_compute in ("<<<M1099>>>" ++ check (runes_of_ascii "options { a = 1 // a
+ ; }")).
+Eval vm_compute in ("<<<M137>>>" ++ check (runes_of_ascii "MetaData f32a {
+    }
 ")).
-Eval vm_compute in ("<<<M96>>>" ++ check (runes_of_ascii "// c
-MetaData o
-    { }
-")).
-Eval vm_compute in ("<<<M1131>>>" ++ check (runes_of_ascii "MetaData tag { }
-// c
-")).
-Eval vm_compute in ("<<<M996>>>" ++ check (runes_of_ascii "// c 
+Eval vm_compute in ("<<<M995>>>" ++ check (runes_of_ascii "packet A {
+}
+// c ")).
+Eval vm_compute in ("<<<M1076>>>" ++ check (runes_of_ascii "// c" ++ [6158]%N ++ runes_of_ascii "
 packet A {
 }")).
-Eval vm_compute in ("<<<M1078>>>" ++ check (runes_of_ascii "packet A {
-}// c x")).
-Eval vm_compute in ("<<<M1172>>>" ++ check (runes_of_ascii "packet x {
+Eval vm_compute in ("<<<M1170>>>" ++ check (runes_of_ascii "packet x
 // c
-}")).
-Eval vm_compute in ("<<<M712>>>" ++ check (runes_of_ascii "packet
-crc")).
-Eval vm_compute in ("<<<M170>>>" ++ check (runes_of_ascii " 	 ")).
+{ }")).
+Eval vm_compute in ("<<<M560>>>" ++ check (runes_of_ascii "MetaData u")).
+Eval vm_compute in ("<<<M310>>>" ++ check (runes_of_ascii "
+//
+")).
